@@ -488,7 +488,9 @@ class Runner:
         con = u.contract
         top_refuted = [o for o in refuted if o.kind in ('ensures', 'raises', 'precondition')]
         found = False
-        for k in ([2, u.bounded_k] if u.bounded_k > 2 else [u.bounded_k]):
+        # without a native harness a concrete input could not be replayed anyway: the failed obligation is reported with the solver's output
+        ks = [] if not u.harness else ([2, u.bounded_k] if u.bounded_k > 2 else [u.bounded_k])
+        for k in ks:
             ip = self.new_interp()
             ip.contracts = dict(self.base_contracts) if hasattr(self, 'base_contracts') else {}
             if hasattr(self, 'configure'):
@@ -522,7 +524,8 @@ class Runner:
                 o = top_refuted[0]
                 rp = self.write_replay(o.name, o.clause, 'custom', None, u.harness, (o.result.get('model') or '')[:3000])
                 self.violations.append(Violation(o.name, o.clause, o.func, inputs=None, replay=rp, reproduced=False,
-                                                 detail='refuted after the loop cut; bounded unrolling (k<=%d) found no concrete input' % u.bounded_k))
+                                                 detail=('refuted after the loop cut; bounded unrolling (k<=%d) found no concrete input' % u.bounded_k) if ks else
+                                                 'refuted after the loop cut; no native harness for this unit, so no concrete input is searched'))
             else:
                 for o in refuted:
                     self.undecided.append((o.name, 'auxiliary obligation refuted (counterexample to induction); bounded search k<=%d found no failing input' % u.bounded_k))
